@@ -46,6 +46,8 @@ def profile(name):
         p['ops_w'].update({'add_capacity': 2.5, 'block': 2.5, 'unblock': 2.5, 'adjust_budget': 1.5,
                            'rewire': 0.8})
         p['budget'] = [3, 5, 8, 12, None, 0]
+        p['p_split'] = 0.5
+        p['p_between_rewire'] = 0.6
     elif name == 'buffers':       # C05
         p['stage_w'].update({'buffer': 8, 'batcher': 1.5, 'group': 0.5, 'nested_group': 0})
         p['p_batch_source'] = 0.35
@@ -390,6 +392,10 @@ class Gen:
                     e = self.rand_op(None)
                     if e is not None:
                         gap.append(e)
+                if len(self.free_devices) >= 2 and rng.random() < p.get('p_between_rewire', 0.25):
+                    e = self.rand_op(None, 'rewire')         # a connection added between two runs
+                    if e is not None:
+                        gap.append(e)
                 if rng.random() < 0.3:
                     # the clock is also moved by direct use of the public Environment between the runs
                     gap.insert(rng.randrange(len(gap) + 1),
@@ -441,8 +447,8 @@ class Gen:
             if c == 0:
                 ops.append({'t': grid_time(rng, horizon / 3.0), 'prio': rng.choice(PRIOS), 'op': 'add_capacity',
                             'res': r, 'amount': rng.choice([1, 2, 3])})
-        def rand_op(t):
-            op = wchoice(rng, w)
+        def rand_op(t, force=None):
+            op = force or wchoice(rng, w)
             e = {'t': t, 'prio': rng.choice(PRIOS), 'op': op}
             if op in ('fail', 'shutdown', 'restore'):
                 e['target'] = rng.choice(procs)
@@ -480,6 +486,7 @@ class Gen:
                 e['new_up'] = a
             return e
         self.rand_op = rand_op if w else None
+        self.free_devices = free
         last_t = None
         for _ in range(n_ops):
             if not w:
